@@ -17,6 +17,16 @@ def decTok (r : Except Wif.Err Wif.WIF) : String :=
   | .error .malformed => "err,malformed"
   | .error .checksum => "err,checksum"
 
+def histStep (acc : Wif.WIF × List String) (st : String) : Option (Wif.WIF × List String) :=
+  let (w, out) := acc
+  match st.toList with
+  | ['S'] => some (w, out ++ [Bytes.tok (Wif.String sha256d w)])
+  | ['P'] => some (w, out ++ [Bytes.tok (pubSer w.d w.compress)])
+  | ['D'] => some (w, out ++ [decTok (Wif.DecodeWIF sha256d (Wif.String sha256d w))])
+  | ['C', b] => some ({ w with compress := b == '1' }, out)
+  | 'K' :: r => (bytes? (String.ofList r)).map fun k => ({ w with d := Bytes.toNatBE k }, out)
+  | _ => none
+
 def run : Runner
   -- wif <netid> <compress> <key>: String, DecodeWIF of it, public key serialisation
   | "wif", [_, nid, c, k], impl => do
@@ -43,6 +53,13 @@ def run : Runner
       | ["ok", _, _, _, _, re] => if re == Bytes.tok s then "ok" else "violated:canonical"
       | _ => "ok"
     pure { model := decTok (Wif.DecodeWIF sha256d s), prop }
+  -- wifhist <netid> <compress> <key> <steps>: every answer is a function of the current field values only
+  | "wifhist", [_, nid, c, k, steps], _ => do
+    let nid ← nat? nid; let c ← bool? c; let k ← bytes? k
+    let w0 : Wif.WIF := ⟨Bytes.toNatBE k, c, u8 nid⟩
+    let sts := if steps == "-" then [] else steps.splitOn ","
+    let (_, out) ← sts.foldlM (fun (acc : Wif.WIF × List String) st => histStep acc st) (w0, [])
+    pure { model := if out.isEmpty then "-" else " ".intercalate out, prop := "spec" }
   | _, _, _ => none
 
 end Bch.Drive.C06
